@@ -53,6 +53,7 @@ func c05Config(p *prng.R) *c05cfg {
 		{Name: "name", Key: str, Min: 1, Max: 1},
 		{Name: "k2", Key: in, Min: 1, Max: 1},
 		{Name: "opt", Key: str, Min: 0, Max: 1},
+		{Name: "opt2", Key: str, Min: 0, Max: 1},
 		{Name: "label", Key: str, Min: 1, Max: 1},
 		{Name: "tags", Key: str, Val: &sv, Min: 0, Max: -1},
 		{Name: "other", Key: in, Min: 0, Max: -1},
@@ -75,6 +76,7 @@ func c05Config(p *prng.R) *c05cfg {
 		{Columns: []model.ColumnKey{{Column: "label"}, {Column: "opt"}}},
 		{Columns: []model.ColumnKey{{Column: "name"}}}, // may overlap a schema index
 		{Columns: []model.ColumnKey{{Column: "tags", Key: "k"}, {Column: "label"}}},
+		{Columns: []model.ColumnKey{{Column: "opt"}, {Column: "opt2"}}}, // two optional columns of one type
 	}
 	for _, c := range cands {
 		if p.Bool() {
@@ -209,6 +211,10 @@ func (c *c05cfg) randRow(p *prng.R) ref.Row {
 	if p.Bool() {
 		row["opt"] = ref.Set(ref.Str([]string{"", "o1", "o2"}[p.Intn(3)]))
 	}
+	row["opt2"] = ref.Datum{}
+	if p.Bool() {
+		row["opt2"] = ref.Set(ref.Str([]string{"", "o1", "o2"}[p.Intn(3)]))
+	}
 	row["label"] = ref.Set(ref.Str([]string{"", "red", "blue"}[p.Intn(3)]))
 	tags := ref.Datum{Map: true}
 	if p.Bool() {
@@ -284,7 +290,7 @@ func (c *c05cfg) nextState(p *prng.R, st c05state) (c05state, string) {
 				u := us[p.Intn(len(us))]
 				row := n[u].Clone()
 				nr := c.randRow(p)
-				for _, cn := range []string{"opt", "label", "tags", "other"} {
+				for _, cn := range []string{"opt", "opt2", "label", "tags", "other"} {
 					if p.Bool() {
 						row[cn] = nr[cn]
 					}
@@ -394,7 +400,7 @@ func (c *c05cfg) check(tc *cache.TableCache, st c05state, p *prng.R) []finding {
 			if ck.Key != nil {
 				kind += "-mapkey"
 			}
-			if ck.Column == "opt" {
+			if ck.Column == "opt" || ck.Column == "opt2" {
 				kind += "-optional"
 			}
 		}
